@@ -20,18 +20,27 @@ On the model of the passes (after the F02 repair):
 namespace A816.C02
 open A816
 
-/-- what the label check establishes for a node, in the resolver state it is emitted in -/
+/-- what the label check establishes for a node, in the resolver state it is emitted in: the label pass gave
+    the name the run address, and the name *evaluates* to that address there -/
 def LabelAt (n : Node) (r : Resolver) : Prop :=
   match n with
-  | .label name => alookup name r.cur.labels = some (r.reloc.logical : Int)
-  | .binary _ base => alookup base r.cur.labels = some (r.reloc.logical : Int)
+  | .label name => alookup name r.cur.labels = some (r.reloc.logical : Int) ∧ r.look name = .int (r.reloc.logical : Int)
+  | .binary _ base => alookup base r.cur.labels = some (r.reloc.logical : Int) ∧ r.look base = .int (r.reloc.logical : Int)
   | _ => True
 
 theorem checkLabel_ok (r : Resolver) (name : String) (a : Address) (h : checkLabel r name a = .ok ()) :
-    alookup name r.cur.labels = some (a.logical : Int) := by
+    alookup name r.cur.labels = some (a.logical : Int) ∧ r.look name = .int (a.logical : Int) := by
   unfold checkLabel at h
   split at h
-  · assumption
+  · rename_i hl
+    refine ⟨hl, ?_⟩
+    unfold Resolver.look
+    split at h
+    · rename_i v hv
+      split at h
+      · rename_i he; rw [hv, he]
+      · cases h
+    · cases h
   · cases h
 
 theorem emitNode_labelAt (env : Env) (n : Node) (r r1 : Resolver) (bs : List Nat)
@@ -57,6 +66,19 @@ theorem C02_labels (env : Env) (pre : List Node) (n : Node) (post : List Node) (
   obtain ⟨s1, s2, h1, h2, _⟩ := emitLoop_split env pre n post st st' h
   obtain ⟨r1, bs, hem, htr, _⟩ := emitStep_spec env n s1 s2 h2
   exact ⟨s1, s2, h1, h2, emitNode_labelAt env n s1.r r1 bs hem, bs, htr⟩
+
+/-- **a label evaluates to its address**: in the state a label node is emitted in, an expression that is
+    just the label's name evaluates to the run address (`LabelAt` unfolded for the evaluator's lookup). -/
+theorem label_evaluates (env : Env) (name : String) (r r1 : Resolver) (bs : List Nat)
+    (h : emitNode env (.label name) r = .ok (r1, bs)) : r.look name = .int (r.reloc.logical : Int) :=
+  (emitNode_labelAt env (.label name) r r1 bs h).2
+
+/-- a label hidden by a `=` symbol / block parameter of the same name in its scope fails too -/
+theorem label_hidden_fails (env : Env) (name : String) (r : Resolver)
+    (h : r.look name ≠ .int (r.reloc.logical : Int)) : ∃ e, emitNode env (.label name) r = .error e := by
+  cases hr : emitNode env (.label name) r with
+  | error e => exact ⟨e, rfl⟩
+  | ok p => obtain ⟨r1, bs⟩ := p; exact absurd (label_evaluates env name r r1 bs hr) h
 
 /-- **fails instead of shifting**: a label whose resolved value differs from the run address makes the
     emission fail with a `NodeError`. -/
